@@ -1,8 +1,10 @@
 import LoraVerif.Props.C10
 import LoraVerif.Props.TieA.C10
+import LoraVerif.Props.C05Size
 /-!
 # C10 — the module `./check C10` builds: the property theorems (`Props/C10.lean`) together with the
 tie-A equalities between the hand model's constants and the items regenerated from the current
 source (`Props/TieA/C10.lean`).  Kept separate from `Props/C10.lean` so that properties which only
 import C10's lemmas do not inherit its generated units.
+import LoraVerif.Props.C05Size
 -/
